@@ -1,15 +1,17 @@
 // Package c07 monitors "keys at rest are encrypted, bound to their owner, tamper-evident and confined".
 //
 // Five oracles over real keystores (v1 over a recording filesystem.Storage, v2 over recording back ends):
-//   (a) secrets.go  — no private/symmetric key value the harness learned through public getters (nor any 16-byte
-//                     window of it, raw / hex / base64) occurs in bytes handed to storage, in export bundles or
-//                     (with the VerifWrapCache hook, cache_hook.go) in key-cache entries;
-//   (b) binding.go  — a stored key file / key ring copied over another owner's file fails to load;
-//   (c) tamper.go   — every single-bit flip of every stored v2 key ring (v1 key file) is rejected on read, and so is
-//                     every byte-VALUE change of every stored v2 key ring (der.go: the values that matter to a DER
-//                     reader in the quick tier, all 255 other values in the thorough tier);
-//   (d) confine.go  — hostile client ids / ring paths never make a keystore touch anything outside its root;
-//   (e) secrets.go  — created key files are 0600, directories 0700.
+//
+//	(a) secrets.go  — no private/symmetric key value the harness learned through public getters (nor any 16-byte
+//	                  window of it, raw / hex / base64) occurs in bytes handed to storage, in export bundles or
+//	                  (with the VerifWrapCache hook, cache_hook.go) in key-cache entries;
+//	(b) binding.go  — a stored key file / key ring copied over another owner's file fails to load;
+//	(c) tamper.go   — every single-bit flip of every stored v2 key ring (v1 key file) is rejected on read, and so is
+//	                  every byte-VALUE change of every stored v2 key ring (der.go: the values that matter to a DER
+//	                  reader in the quick tier, all 255 other values in the thorough tier);
+//	(d) confine.go  — hostile client ids / ring paths never make a keystore touch anything outside its root;
+//	(e) secrets.go  — created key files are 0600, directories 0700.
+//
 // See /verif/notes/c07.md.
 package c07
 
@@ -65,7 +67,7 @@ type rig struct {
 	nOpen  int
 	// getHook is installed on every v2 handle opened afterwards (tampering / relocation of stored rings).
 	getHook func(path string, data []byte) []byte
-	closers       []func()
+	closers []func()
 }
 
 func newRig(cfg config, dir string) *rig {
